@@ -91,6 +91,10 @@ func CheckC01(sc *Scenario, res *Result) *Violation {
 			if e.Info == "ok" {
 				st.prepEndOK = true
 				st.prepEndSeq = e.Seq
+			} else {
+				// Start is going to return an error; a pass that another goroutine asked for meanwhile can get going before
+				// that return is recorded here
+				afterFailedPrep = true
 			}
 			if firstStartBegin >= 0 && !afterFailedPrep {
 				return violf("C01a-prep-before-start", "prep of %s ended (seq %d) after a start routine had begun (seq %d)", e.Mod, e.Seq, firstStartBegin)
@@ -140,6 +144,8 @@ func CheckC01(sc *Scenario, res *Result) *Violation {
 					shutdownNil++
 				}
 			}
+			// (not for overlapping passes: a pass during which another goroutine changes what is wanted can find nothing
+			// ready and report a "dependency loop"; the statement speaks of passes that return without error)
 			if !faulty && !e.ErrNil && (e.Info == "start" || e.Info == "manage" || (e.Info == "shutdown" && extraCallers == 0)) {
 				// (f) with an acyclic graph and no failing routine there is nothing to report: an error here means
 				// the wanted modules were not brought online / stopped (e.g. a bogus "dependency loop").
@@ -153,7 +159,9 @@ func CheckC01(sc *Scenario, res *Result) *Violation {
 				}
 			}
 			switch e.Info {
-			case "start", "manage":
+			case "start", "manage", "manage-settled":
+				// ("manage-settled": several goroutines changed what is wanted and asked for a pass at the same time; all
+				// calls have returned, all of them nil)
 				if e.ErrNil && !shutdownReturned && !afterFailedPrep {
 					wanted := map[string]bool{}
 					if sc.Mgmt {
